@@ -182,591 +182,674 @@ tag7 @calculatedFrom( // c129
 ,
     // c132
 } ")).
-Eval vm_compute in ("<<<M125>>>" ++ check (runes_of_ascii "
-packet
-    o // @lengthOf(
+Eval vm_compute in ("<<<M1799>>>" ++ check (runes_of_ascii "options 
 {
-    @leftPad(
-    ) @tag( 00
-)  int16 int
-    @lengthOf(
-Header )
-`
-`	,
-@leftPad (
-'\x00')
-    char[00// c
-]	body@lengthOf( // packet A { u8 x, }
-a1 ) `" ++ [28040; 24687; 31867; 22411]%N ++ runes_of_ascii "` , } packet roots
-{ Logon  `crlf
-line` ,}packet // `tick` ""quote"" 'q'
-_x
-// `tick` ""quote"" 'q'
-//
-{ zchar[4294967296
-] Header`
-`	,chars @calculatedFrom( ""1"" ) // packet A { u8 x, }
-, match As
-// 50% %s
-//
+StringPrefixLenType
+
+    = 
+u16	; 
+ArrayPrefixLenType
+    =
+
+u16 ;
+}	packet
+SampleBinary {	uint16 MsgType `" ++ [28040; 24687; 31867; 22411]%N ++ runes_of_ascii "` ,
+u16 BodyLenght
+@lengthOf(
+	Body  )
+	`" ++ [28040; 24687; 20307; 38271; 24230]%N ++ runes_of_ascii "`
+	, match
+    MsgType
+
 as
-// @lengthOf(
-//x
-A {""`tick`""// " ++ [27880; 37322]%N ++ runes_of_ascii "
-:u }
-    , repeat string
-    zchar ,
-    repeat packetx { match
-pack
-    //x
-    as
-lengthOf
-    { 3: calculatedFrom
-    , 3
-    // packet A { u8 x, }
-    : metadata ,
-    ""abc"" // " ++ [128512]%N ++ runes_of_ascii " emoji
-:
-    falsey,4294967296 :
-len ,
-}  , match Packet as repeatCount
-{ [""a\\"", 1 , ""a\\"" ,0
-, ""packet"" , ""a	b"" ] : f32a
-    , 4294967296
+Body{1
+    :Logon
+	, 
+2  :	Logout  ,
+
+3
+
     :
-tag  1 :
-packetx  , [ ""\n"", 42 ,
-    4294967296
-    ,
-""a	b""
-    , 10
-,
-255 ,	007 ]
+	Heartbeat  ,  4 :RiskControlRequest ,5 
 :
-chars
-,  [ ""1"" ,""// no comment""
-,0 , // 50% %s
-1 ,""`tick`"" , 3 , 42 , ""\" ++ [233]%N ++ runes_of_ascii """ ]
-: BodyLength
-    }, // trailing space 
-},string u8x `" ++ [28040; 24687; 31867; 22411]%N ++ runes_of_ascii "`  ,
-    repeat
-    f32a{
-char[7 ] // " ++ [128512]%N ++ runes_of_ascii " emoji
-x_y_z `
-` // trailing space 
+
+    RiskControlResponse
+
+,  }
+    ,  @calculatedFrom(""CRC32""
+    )u32
+Ckecksum 
+`" ++ [26657; 39564; 21644]%N ++ runes_of_ascii "`,
+
+}	packet
+Logon
+	{ @leftPad 
+('0' 
+)
+
+    char[ 
+10
+
+    ]UserName
+`" ++ [29992; 25143; 21517]%N ++ runes_of_ascii "` ,
+string 
+Password
+`" ++ [23494; 30721]%N ++ runes_of_ascii "` ,
+uint64
+    ClientId
+`" ++ [23458; 25143; 31471]%N ++ runes_of_ascii "ID`
 ,
-} , }
-MetaData Packet { chars u , char[]u8x
-,
-// 50% %s
-// trailing space 
-x_y_z
-    /// triple
-    asx
-    `" ++ [28040; 24687; 31867; 22411]%N ++ runes_of_ascii "`,
-int8 Header `{ , }` , zchar[
-4294967296 ]
-    rootA `u8 x,`
-/// triple
-//
-,
-char[] calculatedFrom, }
-")).
-Eval vm_compute in ("<<<M1347>>>" ++ check (runes_of_ascii "// top
-packet
-    // c0
-NewOrder {
-    // c2
-u32 // c3
-qty ,
-    // c5
+
+    u16
+
+    HeartbeatInterval `" ++ [24515; 36339; 38388; 38548]%N ++ runes_of_ascii "`
+
+    ,}  packet	Logout
+{ @rightPad
+    ('0')char[10 ]UserName  `" ++ [29992; 25143; 21517]%N ++ runes_of_ascii "`
+	, 
+uint64 ClientId
+`" ++ [23458; 25143; 31471]%N ++ runes_of_ascii "ID` 
+, 
 } packet
-    // c7
-Cancel { u64 // c10a
-  // c10b
-id // c11
-, // c12a
-  // c12b
-} packet // c14a
-  // c14b
-Business // c15
-{ // c16
-u8 Kind // c18
-, match // c20
-Kind // c21a
-  // c21b
-as Detail
-    // c23
-{ 1 // c25
-: NewOrder
-    // c27
-, // c28a
-  // c28b
-2 :
-    // c30
-Cancel // c31a
-  // c31b
-, }
-    // c33
-, // c34
-} packet // c36
-TcpFrame // c37a
-  // c37b
-{ // c38
-u8 // c39a
-  // c39b
-T // c40
-, // c41
-match // c42
-T as
-    // c44
-Body
-    // c45
-{ 1 : // c48a
-  // c48b
-Business , } // c51a
-  // c51b
-, // c52a
-  // c52b
-} // c53
-packet // c54
-UdpFrame {
-    // c56
-u8 // c57
-U
-    // c58
-, // c59
-match // c60a
-  // c60b
-U as // c62
-Body // c63a
-  // c63b
-{
-    // c64
-1 : // c66
-Business , // c68a
-  // c68b
-} // c69
-,
-    // c70
-Business
-    // c71
-extra
-    // c72
-, } root // c75a
-  // c75b
-packet // c76a
-  // c76b
-Wire
-    // c77
-{ // c78
-TcpFrame
-    // c79
-, // c80a
-  // c80b
-UdpFrame // c81a
-  // c81b
-, // c82
-} // c83
-")).
-Eval vm_compute in ("<<<M22>>>" ++ check (runes_of_ascii "root packet packetx
-{	char[] leftPad
-@lengthOf( chars )
-, @lengthOf(
-u
-    )repeat uint8 float , A
-,	zchar[ 4294967296 ]string_ @lengthOf( float ), match
-rootA
-as As {// " ++ [128512]%N ++ runes_of_ascii " emoji
-[
-    ""it's"", 255
-    ,// 50% %s
-0123456789
-,""" ++ [233]%N ++ runes_of_ascii "t" ++ [233]%N ++ runes_of_ascii """, ""{,}"" , ""abc"" ,
-""" ++ [233]%N ++ runes_of_ascii "t" ++ [233]%N ++ runes_of_ascii """
-]
-    :int , 4294967296
-:
-    tag// trailing space 
-, }, @calculatedFrom(
-    ""\" ++ [233]%N ++ runes_of_ascii """
-    // packet A { u8 x, }
-    ) @lengthOf( tag ) match leftPad as u {[ ""it's""
-    ] : string_,
-} , @calculatedFrom( ""\n""
-// 50% %s
-// packet A { u8 x, }
-) @lengthOf(calculatedFrom)
-    // 50% %s
-    @lengthOf(
-// trailing space 
-// trailing space 
-MetaDataX)charz, @tag( 65535 ) match f32a as rootA
-    { [
-    """ ++ [128512]%N ++ runes_of_ascii """ ] :
-falsey 0 :// packet A { u8 x, }
-MetaDataX, // @lengthOf(
+	Heartbeat{ 
 }
+packet
+    RiskControlRequest
+	{ 
+string UniqueOrderId`" ++ [21807; 19968; 35746; 21333; 21495]%N ++ runes_of_ascii "`	,char[  16 
+]ClOrdID 
+`" ++ [23458; 25143; 35746; 21333; 21495]%N ++ runes_of_ascii "`
+
+, char[
+    3  ]
+	MarketID
+    `" ++ [24066; 22330]%N ++ runes_of_ascii "id`
+,
+
+    char[ 12
+]
+
+SecurityID
+    `" ++ [35777; 21048; 20195; 30721]%N ++ runes_of_ascii "` , char
+
+Side`" ++ [20080; 21334; 26041; 21521]%N ++ runes_of_ascii "`,  char OrderType
+    `" ++ [35746; 21333; 31867; 22411]%N ++ runes_of_ascii "`,u64  Price`" ++ [20215; 26684]%N ++ runes_of_ascii "` ,u32
+    Qty `" ++ [25968; 37327]%N ++ runes_of_ascii "`, repeat
+string 
+ExtraInfo`" ++ [38468; 21152; 20449; 24687]%N ++ runes_of_ascii "`
     ,
-char[
-    007 ] i8i8 @calculatedFrom( // c
-""" ++ [233]%N ++ runes_of_ascii "t" ++ [233]%N ++ runes_of_ascii """
-// trailing space 
-// " ++ [128512]%N ++ runes_of_ascii " emoji
-) `
-` ,
-} options{trueish
-    /// triple
-    = // c
-true ; rootA	= ""\" ++ [233]%N ++ runes_of_ascii """; trueish
-= false ; } // a // b")).
-Eval vm_compute in ("<<<M1937>>>" ++ check (runes_of_ascii "options {
-    ArrayPrefixLenType = u32;
-    FixedStringPadFromLeft = false;
-    FixedStringPadChar = '0';
-}
 
-packet Trade {
-    repeat InVenue78 {
-        u16 tag7,
-        repeat InLastpx9 {
-            u8 pad0,
-        },
-        int64 Tail,
-        repeat InQty37 {
-            char[2] OrderId,
-            zchar[6] lastPx,
-            int64 Qty,
-        },
-        uint8 Side2,
-    },
-}
+repeat SubOrder { 
+char[ 16]
 
-packet Logon {
-    repeat string venue,
-    @rightPad('\x00')
-    char[3] sym,
-    zchar[9] count,
-    zchar[7] f1,
-    Trade,
-}
+ClOrdID `" ++ [23376; 35746; 21333; 21495]%N ++ runes_of_ascii "`
 
-packet Logout {
-}
+    , u64
 
-root packet Reject {
-    int32 sym,
-    u8 Px,
-    u32 Tail @lengthOf(Body),
-    match Px as Body {
-        184 : Trade,
-        173 : Logon,
-        12 : Logout,
-    },
-    u32 tag7 @calculatedFrom(""CR\
-    C32""),
-}")).
-Eval vm_compute in ("<<<M1390>>>" ++ check (runes_of_ascii "
-options{LittleEndian =true	;
-StringPrefixLenType =
-
-    u32
-	;
-
-    ArrayPrefixLenType= u8;}
-	packet
-    Heartbeat	{ 
-string
-
-    msgKind,
-}
-    packet
-
-Logon 
-{
-repeat  Heartbeat 
-,  repeat
-
-    string  Px ,
-
-uint8
-
-Tail 
-,	char[]
-
-    f1
-, }packet
-	Cancel
-	{
-	zchar[ 4  ]
-OrderId
+Price 
+`" ++ [23376; 35746; 21333; 20215; 26684]%N ++ runes_of_ascii "`
 
 ,
-    Logon  ,
+
+u32
+Qty
+`" ++ [23376; 35746; 21333; 25968; 37327]%N ++ runes_of_ascii "`  ,
+
+    } ,}	packet
+RiskControlResponse {
+
+    string
+UniqueOrderId
+    `" ++ [21807; 19968; 35746; 21333; 21495]%N ++ runes_of_ascii "` , i32 
+Status`" ++ [29366; 24577]%N ++ runes_of_ascii "`,
+	string  Msg 
+`" ++ [32467; 26524; 20449; 24687]%N ++ runes_of_ascii "` 
+,
+
+    repeat  Detail 
+,
+	}  packet
+Detail{
+	string 
+RuleName `" ++ [35268; 21017; 21517; 31216]%N ++ runes_of_ascii "` ,  u16
+
+    Code
+
+    `" ++ [21407; 22240; 20195; 30721]%N ++ runes_of_ascii "`  ,}
+")).
+Eval vm_compute in ("<<<M311>>>" ++ check (runes_of_ascii "packet falsey  {
+    /// triple
+    string i8i8 @calculatedFrom(
+""a\\""
+    )	, // " ++ [128512]%N ++ runes_of_ascii " emoji
+@calculatedFrom(
+    """ ++ [233]%N ++ runes_of_ascii "t" ++ [233]%N ++ runes_of_ascii """ ) repeat a1
+,
+    } options { falsey =0
+// packet A { u8 x, }
+// c
+Foo
+    = //x
+""\" ++ [233]%N ++ runes_of_ascii """ ; } root packet
+packetx { metadata @lengthOf(
+asx ),
+// @lengthOf(
+//	t
+char[] BodyLength @calculatedFrom(
+    """ ++ [233]%N ++ runes_of_ascii "t" ++ [233]%N ++ runes_of_ascii """
+)`" ++ [233]%N ++ runes_of_ascii "`	, metadata{
+    repeat rootA i64_
+    `a\`
+    // " ++ [128512]%N ++ runes_of_ascii " emoji
+    , u8x
+// a // b
+// `tick` ""quote"" 'q'
+chars
+    ,
+repeat int64 string_ // " ++ [27880; 37322]%N ++ runes_of_ascii "
+`{ , }` // trailing space 
+,} , @tag( 4294967296
+    // " ++ [27880; 37322]%N ++ runes_of_ascii "
+    )
+u64
+tag  @lengthOf( pack ) , // `tick` ""quote"" 'q'
+u128 Z9_ ``
+    , repeat
+// @lengthOf(
+// `tick` ""quote"" 'q'
+i16 lengthOf , @calculatedFrom( ""`tick`"" )
+// `tick` ""quote"" 'q'
+// @lengthOf(
+repeat// a // b
+char[ //
+00 ]
+    //	t
+    Packet `it's` , uint16 Pad, @calculatedFrom( ""a\\"" )match int
+//
+// " ++ [27880; 37322]%N ++ runes_of_ascii "
+as
+    pack
+{ 00 : u , [ ""x y"" ]:asx  , """ ++ [28040; 24687]%N ++ runes_of_ascii """
+    :
+string_
+    // trailing space 
+    1 : Pad , },	@calculatedFrom( // " ++ [27880; 37322]%N ++ runes_of_ascii "
+""" ++ [233]%N ++ runes_of_ascii "t" ++ [233]%N ++ runes_of_ascii """ ) roots @calculatedFrom( ""// no comment"" // @lengthOf(
+) ,	}
+    packet zchar  { // 50% %s
+@leftPad	( '0' ) T `line1
+line2`
+    ,
+    }
+")).
+Eval vm_compute in ("<<<M1351>>>" ++ check (runes_of_ascii "  options
+
+    {
+LittleEndian
+=
+false;
+FixedStringPadChar=  ' ' ;	} packet
+
+Fill	{
+	InFlags6
+    {
+
 repeat
-
-    InMsgkind98{  repeat
-    u8
-
-tag7,
+    u64 
+count
+	,}
+, char[8
+]  price
+,
 	repeat
-	InFlags69
-{
-	char[]
+    char[
+    2] 
+lastPx ,
+	char[] count,}packet
+Quote
+    {  char[]
+Qty
+    ,
 
-Note	,char[]
-lastPx
-
-    ,	char[ 11
+int32 sym ,zchar[
+	9
 ]
-	Ref ,
-Logon,}
-    ,repeat  Heartbeat , } , 
+
+    Flags ,
+    int8
+	tag7 ,
+char[7
+]
+
+    count,
+} 
+packet
+Cancel  {
+
+string Acct
+
+    ,  @rightPad
+('\x00'
+	)char[
+
+2
+    ]  Note ,
+
 zchar[
 
-    7	]
+5
 
-Px 
-,
-	u32
-seqNo 
-,	}
-
-root
-
-    packet Reject {
-	i16
-tag7
-    ,
-	char[3
-
-] Qty
-
-    ,
-	InRef42 {  u8
-pad0
-
-,
-},
-uint32 f1 ,zchar[
-
-7]
-OrderId  ,zchar[ 
-8
-]x	,} ")).
-Eval vm_compute in ("<<<M1133>>>" ++ check (runes_of_ascii "// top
-packet
-    // c0
-float
-    // c1
-{
-    // c2
-@rightPad
-    // c3
-(
-    // c4
-)
-    // c5
-rootA
-    // c6
-@lengthOf(
-    // c7
-trueish
-    // c8
-)
-    // c9
-,
-    // c10
-stringy
-    // c11
-@lengthOf(
-    // c12
-matchKey
-    // c13
-)
-    // c14
-,
-    // c15
-char[
-    // c16
-4294967296
-    // c17
 ]
-    // c18
-pack
-    // c19
-@lengthOf(
-    // c20
-uint8x
-    // c21
-)
-    // c22
+Side2,	} 
+packet  Trade
+
+    { repeat 
+Quote
+    ,
+    Fill 
+,  repeat
+    i64
+    Side2
+    ,	uint16 
+Tail 
 ,
-    // c23
-}
-    // c24
-root
-    // c25
-packet
-    // c26
-trueish
-    // c27
-{
-    // c28
-repeat
-    // c29
-uint64
-    // c30
-u128
-    // c31
-`say ""hi""`
-    // c32
+zchar[7
+    ]
+    OrderId,}
+
+    root  packet
+	Party 
+{ repeat
+    InLastpx79
+
+    {
+
+    char[
+
+12 ] 
+Px, int8 
+Tail ,  }
+,f32 
+count  ,  repeat 
+u8
+Note,Trade	,f64
+    venue 
+,@rightPad
+
+    (
+'\x00')char[
+    11
+	]
+tag7	,
+u16
+Px
 ,
-    // c33
-}
-    // c34
+    u32  Side2 @lengthOf(
+
+Body
+	)
+
+    , match 
+Px as
+Body
+
+{[ 48 , 188
+    ]
+	:Fill	, 190:Trade	,  160
+	:Quote
+
+    , 85
+
+    :
+
+    Cancel
+,
+	}
+	, }
+
 ")).
-Eval vm_compute in ("<<<M1757>>>" ++ check (runes_of_ascii "MetaData i8i8 {
-    char[00] msg_type `say ""hi""`,
-}// " ++ [128512]%N ++ runes_of_ascii " emoji
-
-MetaData charz {
-    zchar[0] options1,
-}
-
-packet MetaDataX {
-    // packet A { u8 x, }
-    Header u8x `// not a comment`,
-    x rootA,
-    @lengthOf(falsey)
-    @lengthOf(i8i8)
-    match MetaDataX as stringy {
-        [""" ++ [128512]%N ++ runes_of_ascii """, ""a\""b""] : i64_,
-    },
-}
-
-MetaData msg_type {
-    string zchar `doc`,
-    //
-}
-
-MetaData leftPad {
-    uint8 x `crlf
-        line`,
-    i32 msg_type `// not a comment`,
-    char[255] leftPad,// a // b
-    char[] u,//	t
-}")).
-Eval vm_compute in ("<<<M1161>>>" ++ check (runes_of_ascii "// top
-MetaData
-    // c0
-x
-    // c1
-{ // c2
-f32a // c3a
-  // c3b
-Pad
-    // c4
-`` // c5a
-  // c5b
-, // c6a
-  // c6b
-}
-    // c7
-packet leftPad { // c10a
-  // c10b
-repeat // c11
-int64 // c12
-crc // c13a
-  // c13b
-, // c14a
-  // c14b
-BodyLength
-    // c15
-{
-    // c16
-uint8 pack // c18
-`say ""hi""` // c19a
-  // c19b
-,
-    // c20
-lengthOf @lengthOf( // c22
-asx
-    // c23
-) // c24a
-  // c24b
-`" ++ [28040; 24687; 31867; 22411]%N ++ runes_of_ascii "` ,
-    // c26
-} // c27a
-  // c27b
-, // c28
-} // c29a
-  // c29b
-")).
-Eval vm_compute in ("<<<M133>>>" ++ check (runes_of_ascii "MetaData x_y_z {zchar[ 00 ] MetaDataX// a // b
-, }
-root
-packet u { @lengthOf(
-// @lengthOf(
-// a // b
-calculatedFrom
-    )	repeat Header{
-charz  @lengthOf( matchKey)
-    ,	repeat u8// trailing space 
-charz , char[]
-float
-    @calculatedFrom( ""CRC32"" )
-`{ , }`
-, }	,	}
-root packet lengthOf {
-@tag(7 ) @lengthOf( o )
-@tag(
-0 ) BodyLength  @calculatedFrom(
-// " ++ [128512]%N ++ runes_of_ascii " emoji
-//
-""a\\"" )	, } options {
-    f32a=
-    ""// no comment"" ; }")).
-Eval vm_compute in ("<<<M1177>>>" ++ check (runes_of_ascii "// top
+Eval vm_compute in ("<<<M1374>>>" ++ check (runes_of_ascii "// top
 options // c0a
   // c0b
-{ f32a
-    // c2
-= // c3
-0 } // c5
-packet trueish // c7a
-  // c7b
-{ // c8
-}
-    // c9
-MetaData _x // c11
-{ char[ // c13a
+{ // c1a
+  // c1b
+StringPrefixLenType = // c3
+u16 // c4a
+  // c4b
+; // c5
+ArrayPrefixLenType // c6
+= u64
+    // c8
+; }
+    // c10
+packet // c11
+Order { // c13a
   // c13b
-0123456789 // c14
-] // c15a
+float64 Ref // c15a
   // c15b
-zchar
-    // c16
-, // c17a
+, // c16
+repeat // c17a
   // c17b
-string // c18
-crc ,
+i32 lastPx // c19
+,
     // c20
-char[
+}
     // c21
-1 ] // c23a
-  // c23b
-options1
+packet Fill
+    // c23
+{
     // c24
-, uint8 // c26a
-  // c26b
-repeatCount
-    // c27
-, // c28
-} // c29
+zchar[ 9 // c26
+] // c27a
+  // c27b
+Ref
+    // c28
+, // c29
+zchar[ // c30a
+  // c30b
+4 ]
+    // c32
+Px // c33
+, // c34
+Order // c35a
+  // c35b
+, // c36
+int8 // c37
+count // c38
+, // c39a
+  // c39b
+}
+    // c40
+packet // c41a
+  // c41b
+Cancel { // c43
+i16 Side2 // c45
+, // c46
+Order // c47a
+  // c47b
+, // c48
+} root packet // c51
+Party // c52
+{ float64 // c54
+Px , // c56
+zchar[
+    // c57
+1
+    // c58
+] // c59
+clOrdID // c60
+, // c61
+} ")).
+Eval vm_compute in ("<<<M1398>>>" ++ check (runes_of_ascii "options { // c1
+LittleEndian
+    // c2
+=
+    // c3
+true // c4a
+  // c4b
+; // c5
+} // c6a
+  // c6b
+packet Sub // c8
+{ // c9
+u8 a // c11
+,
+    // c12
+u16 SubSum // c14
+@calculatedFrom( // c15a
+  // c15b
+""CRC16""
+    // c16
+) // c17a
+  // c17b
+,
+    // c18
+} // c19
+root // c20a
+  // c20b
+packet // c21a
+  // c21b
+Frame
+    // c22
+{
+    // c23
+u16 MsgType // c25a
+  // c25b
+, u16 // c27
+BodyLen @lengthOf( Body ) // c31a
+  // c31b
+, Sub Body // c34a
+  // c34b
+, // c35a
+  // c35b
+string // c36
+note
+    // c37
+, // c38a
+  // c38b
+u16
+    // c39
+Checksum
+    // c40
+@calculatedFrom( // c41a
+  // c41b
+""CRC16"" // c42a
+  // c42b
+) // c43
+, u8 // c45
+tail
+    // c46
+,
+    // c47
+} // c48
 ")).
-Eval vm_compute in ("<<<M1782>>>" ++ check (runes_of_ascii "options {
+Eval vm_compute in ("<<<M1818>>>" ++ check (runes_of_ascii "
+
+  // top
+MetaData  
+      // c0
+		msg_type 
+  // c1
+		{
+    // c2
+  int32
+    // c3
+
+  As
+    // c4
+    `crlf
+line`
+// c5
+  ,
+// c6
+
+MetaDataX 
+
+// c7
+	x  
+      // c8
+	  `a\` 
+	// c9
+, 
+        // c10
+  int8  
+  // c11
+	_x
+// c12
+		,  
+      // c13
+
+char[] 
+	// c14
+    As 
+    // c15
+      `u8 x,`
+// c16
+      ,
+        // c17
+	  zchar[  
+      // c18
+3
+    // c19
+
+] 
+    // c20
+  uint8x 
+    // c21
+    , 
+
+    // c22
+	As 
+      // c23
+    Foo 
+// c24
+    	,
+
+    // c25
+} 
+
+// c26
+	  root
+// c27
+  packet
+// c28
+repeatCount
+        // c29
+	{ 
+      // c30
+	}
+
+// c31")).
+Eval vm_compute in ("<<<M1745>>>" ++ check (runes_of_ascii "packet int {
+    /// triple
+    lengthOf,// " ++ [27880; 37322]%N ++ runes_of_ascii "
+    match x_y_z as trueish {
+        [""it's"", 0123456789] : i64_,
+    },
+    @tag(255)
+    @leftPad('0')
+    options1 @calculatedFrom(""1"") `
+    `,// @lengthOf(
+    @leftPad('\x00')
+    // packet A { u8 x, }
+    len @lengthOf(rootA),
+    i64_ packetx,
+    @tag(42)
+    int32 trueish,
+    i8 options1 `two words`,
+    @leftPad('0')
+    char[1] calculatedFrom `tab	here`,
+    @lengthOf(o)
+    @tag(007)
+    u8 _x @calculatedFrom(""`tick`""),
+    repeatCount @lengthOf(MetaDataX),/// triple
+}")).
+Eval vm_compute in ("<<<M354>>>" ++ check (runes_of_ascii "MetaData o { charz calculatedFrom`
+` // a // b
+, float64 rootA , } packet A
+{  asx
+    @lengthOf(
+packetx
+)
+`u8 x,` , @lengthOf(
+packetx
+    ) a1 {  int32 matchKey @lengthOf( asx ) `" ++ [28040; 24687; 31867; 22411]%N ++ runes_of_ascii "` , Header `{ , }` ,	repeat f64 falsey `100% of %d`// 50% %s
+,
+}  ,
+repeat
+    u32// `tick` ""quote"" 'q'
+lengthOf , u64 Z9_ ,
+    /// triple
+    @lengthOf( _x ) packetx{_x , /// triple
+}
+// " ++ [27880; 37322]%N ++ runes_of_ascii "
+//	t
+, zchar[ 1]
+a1 @lengthOf( chars
+)	,	u64	crc	`100% of %d` , char[65535 ]
+    chars
+, }
+    root packet int { }
+
+")).
+Eval vm_compute in ("<<<M1486>>>" ++ check (runes_of_ascii "// top
+options {
+    // c1
+}
+
+// c2
+MetaData packetx {
+    // c5
+    int falsey `two words`,
+    // c9
+    int32 trueish,
+    // c12
+    char[] u8x,
+    // c15
+    A x `// not a comment`,
+    // c19
+}
+
+// c20
+root packet i8i8 {
+    // c24
+    @lengthOf(repeatCount)
+    // c27
+    @tag(1)
+    // c30
+    @calculatedFrom(""a	b"")
+    // c33
+    string stringy @calculatedFrom(""\n"") `line1
+        line2`,
+    // c40
+    pack `100% of %d`,
+    // c43
+}
+// c44")).
+Eval vm_compute in ("<<<M346>>>" ++ check (runes_of_ascii "MetaData body { //x
+asx As , Foo calculatedFrom`` ,
+    packetx
+pack `{ , }`, // packet A { u8 x, }
+u8x  falsey`say ""hi""` , float32
+float
+    `line1
+line2`, char[] u
+`it's`
+, } packet
+    // a // b
+    asx{uint32 pack
+@calculatedFrom(
+    ""CRC32""
+    ) `line1
+line2` ,char[ 65535 /// triple
+] roots // @lengthOf(
+,Z9_
+zchar // trailing space 
+, repeat uint64 // 50% %s
+float `line1
+line2`
+,
+} root packet options1 { }
+")).
+Eval vm_compute in ("<<<M129>>>" ++ check (runes_of_ascii "packet int  { uint16 BodyLength
+, zchar[ 255] charz// @lengthOf(
+`100% of %d` ,	Logon@lengthOf(	MetaDataX ), }
+packet// " ++ [27880; 37322]%N ++ runes_of_ascii "
+a1
+    {match pack as // `tick` ""quote"" 'q'
+msg_type{10
+    :	float ,
+""" ++ [233]%N ++ runes_of_ascii "t" ++ [233]%N ++ runes_of_ascii """ :
+charz  , 4294967296 : Foo , """ ++ [233]%N ++ runes_of_ascii "t" ++ [233]%N ++ runes_of_ascii """ : u128 , } , repeat Pad{	repeat Foo
+    //x
+    { uint64
+    // `tick` ""quote"" 'q'
+    Header,repeat roots rootA `say ""hi""`
+, } ,} , } packet	Header {
+}
+")).
+Eval vm_compute in ("<<<M1729>>>" ++ check (runes_of_ascii "options {
     LittleEndian = true;
     StringPrefixLenType = u16;
     ArrayPrefixLenType = u16;
@@ -791,401 +874,403 @@ root packet Ack {
     u64 sym,
     zchar[1] Tail,
 }")).
-Eval vm_compute in ("<<<M1468>>>" ++ check (runes_of_ascii "options {
-    stringy = true;
-    x_y_z = false
-    x = '\x00';
-    matchKey = i64;// c
-}
-
-root packet o {
-    @lengthOf(float)
-    int32 As,
-}
-
-root packet x {
-    // a // b
-    @rightPad( )
-    i8i8 @calculatedFrom(""x y""),
-}
-
-MetaData u {
-    A u8x,
-}
-
-options {
-    u8x = i64
-    _x = ""CRC32"";
-    MetaDataX = u8
-}")).
-Eval vm_compute in ("<<<M1327>>>" ++ check (runes_of_ascii "
-packet
-
-MDSnapshotZZ {
-
-u8  a	,
-
-}packet	OrderACK
-
-{
-
-    u16
-    b , }	packet
-    HTTPServerInfo {  string s, }
-
-    root  packet
-FIXMsg
-    { 
-u8 KType  ,  MDSnapshotZZ
-	, repeat OrderACK
-    ,  match
-
-    KType  as 
-Body
-
-    { 1 :HTTPServerInfo ,2: OrderACK ,
-}	,
-	}")).
-Eval vm_compute in ("<<<M1768>>>" ++ check (runes_of_ascii "packet rootA {
-    match BodyLength as A {
-        42 : leftPad,
-        1 : u8x,
-        [10, """ ++ [128512]%N ++ runes_of_ascii """] : i8i8,
-        7 : u8x,
-        007 : trueish,
-        // c
-    },
-    o uint8x,
-    repeat zchar[7] pack,
-    string x_y_z @lengthOf(charz) `
-        `,
-}// c")).
-Eval vm_compute in ("<<<M467>>>" ++ check (runes_of_ascii "packet
-    asx { @calculatedFrom(
-""""  ) @tag( 255 )repeat
-// packet A { u8 x, }
+Eval vm_compute in ("<<<M333>>>" ++ check (runes_of_ascii "MetaData Pad
+{ } MetaData BodyLength {
 // trailing space 
-int16 u8x
-,
-@tag(
-    //
-    007 )
-    @tag( @tag( 0
-    /// triple
-    ) @tag( 1) u
-    @lengthOf( T ),
-// `tick` ""quote"" 'q'
-//x
-} // " ++ [128512]%N ++ runes_of_ascii " emoji")).
-Eval vm_compute in ("<<<M492>>>" ++ check (runes_of_ascii "packet
-    asx { @calculatedFrom(
-""""  ) @tag( 255 )repeat
-// packet A { u8 x, }
 // trailing space 
-int16 u8x
-,
-@tag(
-    //
-    007 )
-    @tag( 0
-    /// triple
-    ) @tag( 1) ) u
-    @lengthOf( T ),
-// `tick` ""quote"" 'q'
-//x
-} // " ++ [128512]%N ++ runes_of_ascii " emoji")).
-Eval vm_compute in ("<<<M429>>>" ++ check (runes_of_ascii "packet
-    asx { @calculatedFrom(
-""""  ) @tag( 255 ;repeat
+} root	packet MetaDataX // trailing space 
+{// 50% %s
+@lengthOf( a1
+) match
+    trueish // a // b
+as
+uint8x {[
+""// no comment"" , ""CRC32""
+    ,""" ++ [28040; 24687]%N ++ runes_of_ascii """ ,
+""" ++ [128512]%N ++ runes_of_ascii """, ""// no comment"" ,""abc"" ] :Logon
+    , } , match T as crc {
+    ""\n"":	Z9_
+    , } ,	}
+")).
+Eval vm_compute in ("<<<M48>>>" ++ check (runes_of_ascii "  options
+{ len	= 00
+;
+//	t
 // packet A { u8 x, }
-// trailing space 
-int16 u8x
-,
-@tag(
-    //
-    007 )
-    @tag( 0
-    /// triple
-    ) @tag( 1) u
-    @lengthOf( T ),
-// `tick` ""quote"" 'q'
-//x
-} // " ++ [128512]%N ++ runes_of_ascii " emoji")).
-Eval vm_compute in ("<<<M426>>>" ++ check (runes_of_ascii "packet
-    asx { @calculatedFrom(
-""""  ) @tag( 255 repeat
-// packet A { u8 x, }
-// trailing space 
-int16 u8x
-,
-@tag(
-    //
-    007 )
-    @tag( 0
-    /// triple
-    ) @tag( 1) u
-    @lengthOf( T ),
-// `tick` ""quote"" 'q'
-//x
-} // " ++ [128512]%N ++ runes_of_ascii " emoji")).
-Eval vm_compute in ("<<<M263>>>" ++ check (runes_of_ascii "MetaData i64_{int16 u128 ,}
-    MetaData	packetx
-{ char[]
-T, uint16 a1 `a\`
-, zchar[ 007 ] uint8x	, }
-root
-packet//	t
-A {
-@leftPad ( ' ' ) @tag( 255 // " ++ [27880; 37322]%N ++ runes_of_ascii "
-) @leftPad ( '\x00' ) repeat leftPad i64_
-    // `tick` ""quote"" 'q'
-    ,}")).
-Eval vm_compute in ("<<<M1673>>>" ++ check (runes_of_ascii "// top
-  root	// c0a
-  	// c0b
-	packet	// c1a
-  // c1b
-P // c2a
-// c2b
-  	{ 
+charz= zchar[ 3 ] //
+; Pad
+=
+255 ;
+falsey
+=""" ++ [28040; 24687]%N ++ runes_of_ascii """ }root packet
+    repeatCount { char[4294967296
+] x_y_z @lengthOf(string_ )
+,@calculatedFrom(
+""packet""
+) @tag(	4294967296 ) float32
+asx @lengthOf(
+    x_y_z ), u64
+    zchar , } 	 ")).
+Eval vm_compute in ("<<<M1716>>>" ++ check (runes_of_ascii "// top
+      root// c0
+packet 	 // c1
+	P // c2a
+  	// c2b
+  {	// c3a
+      // c3b
 
-    // c3
-	char 
-    // c4
-  c// c5
-    , 
-	// c6
-      u8// c7a
-    	// c7b
-    x  
-      // c8
-	  , // c9a
-  // c9b
-  }
-// c10
-")).
-Eval vm_compute in ("<<<M4>>>" ++ check (runes_of_ascii "MetaData
-    // " ++ [128512]%N ++ runes_of_ascii " emoji
-    u { float64 A , calculatedFrom zchar, char[1]
-repeatCount, int32
-x_y_z , u16 Packet`say ""hi""`
-    // " ++ [128512]%N ++ runes_of_ascii " emoji
-    ,
-    // a // b
-    }options
-{ repeatCount = ' ' }
-")).
-Eval vm_compute in ("<<<M1267>>>" ++ check (runes_of_ascii "// top
-root
-    // c0
-packet
-    // c1
-P // c2
-{ // c3
-hdr {
-    // c5
-u8 // c6
-a // c7a
-  // c7b
-, } ,
-    // c10
-u8 // c11a
-  // c11b
-x // c12a
-  // c12b
-, // c13a
-  // c13b
-} ")).
-Eval vm_compute in ("<<<M677>>>" ++ check (runes_of_ascii "MetaData u
-    { } MetaData o
-{ float uint8x
-`100% of %d` ,repeatCount u8x, string_ leftPad
-, i32
-    Foo , int64 x `two words` , calculatedFrom
-stringy `a\` `a\` ,
-}
-")).
-Eval vm_compute in ("<<<M652>>>" ++ check (runes_of_ascii "MetaData u
-    { } MetaData o
-{ float uint8x
-`100% of %d` ,repeatCount u8x, string_ leftPad
-, i32
-    Foo , int64 x x `two words` , calculatedFrom
-stringy `a\` ,
-}
-")).
-Eval vm_compute in ("<<<M578>>>" ++ check (runes_of_ascii "MetaData u
-    { } MetaData o
-float { uint8x
-`100% of %d` ,repeatCount u8x, string_ leftPad
-, i32
-    Foo , int64 x `two words` , calculatedFrom
-stringy `a\` ,
-}
-")).
-Eval vm_compute in ("<<<M576>>>" ++ check (runes_of_ascii "MetaData u
-    { } MetaData o
- float uint8x
-`100% of %d` ,repeatCount u8x, string_ leftPad
-, i32
-    Foo , int64 x `two words` , calculatedFrom
-stringy `a\` ,
-}
-")).
-Eval vm_compute in ("<<<M589>>>" ++ check (runes_of_ascii "MetaData u
-    { } MetaData o
-{ float )
-`100% of %d` ,repeatCount u8x, string_ leftPad
-, i32
-    Foo , int64 x `two words` , calculatedFrom
-stringy `a\` ,
-}
-")).
-Eval vm_compute in ("<<<M707>>>" ++ check (runes_of_ascii "MetaData u
-    { } MetaData o
-{ float uint8x
-`100% of %d` ,repeatCount u8x, string_ leftPad
-, i32
-    Foo , int64 x `two words` , a" ++ [769]%N ++ runes_of_ascii "b
-stringy `a\` ,
-}
-")).
-Eval vm_compute in ("<<<M1876>>>" ++ check (runes_of_ascii "
-// " ++ [128512]%N ++ runes_of_ascii " emoji
-	packet lengthOf	{
-    zchar[	1
-]
+	u8  // c4a
+  // c4b
 
-u8x
-`tab	here`
-    ,
+s_u8 // c5a
 
-    }
-    packet 
-packetx
-	{  @leftPad
+	// c5b
+  ,  repeat
+// c7
 
-    (
-    )
+u8  // c8a
+// c8b
+		r_u8// c9a
 
-f32a	`it's`,
-	} ")).
-Eval vm_compute in ("<<<M153>>>" ++ check (runes_of_ascii "MetaData packetx { As packetx // @lengthOf(
-`it's` ,
-f64
-Foo ,u8x i64_ , u32
-    x `doc` // " ++ [27880; 37322]%N ++ runes_of_ascii "
-, int32 metadata , string _x
-    ,	}
-")).
-Eval vm_compute in ("<<<M1596>>>" ++ check (runes_of_ascii "options {
-}
-
-options {
-    MetaDataX = char;
-}// c
-
-MetaData Pad {
-    i8 metadata,
-    string stringy,
-    int8 As `{ , }`,
-}")).
-Eval vm_compute in ("<<<M1678>>>" ++ check (runes_of_ascii "packet
-
-MetaDataX //	t
-
-{ 
-chars
-@lengthOf( lengthOf	)
-    `" ++ [233]%N ++ runes_of_ascii "` ,
-	repeat 
-int64
-
-o
+	// c9b
 	,
-	} MetaData
-matchKey
-    {
-    }")).
-Eval vm_compute in ("<<<M1208>>>" ++ check (runes_of_ascii "options { }
-// c
-options { MetaDataX = char ; } MetaData Pad { i8 metadata , string stringy , int8 As `{ , }` , }")).
-Eval vm_compute in ("<<<M1240>>>" ++ check (runes_of_ascii "options { } options { MetaDataX = char ; } MetaData Pad { i8 metadata , string stringy ,
-// c
-int8 As `{ , }` , }")).
-Eval vm_compute in ("<<<M899>>>" ++ check (runes_of_ascii "packet A {
-  match k as n {
-    [""a"", ""bb"", 007, ""d"", ""e"", 66, ""g"", ""h"", 9, ""j"", ""k""] : B,
-    2 : C
-  },
-}")).
-Eval vm_compute in ("<<<M942>>>" ++ check (runes_of_ascii "packet A {
-    Inner {
-        u8 x `a
+    // c10
+u16
+// c11
+b_len 	 // c12
 
-b`,
-        Deep {
-            u8 y `a
-
-b`,
-        },
-    },
-}")).
-Eval vm_compute in ("<<<M127>>>" ++ check (runes_of_ascii "root packet MetaDataX{
-} options  {	rootA = 7
-    ; _x = ""it's"" ; matchKey = 3 }
-packet rootA
-{}
+,  // c13a
+    // c13b
+    }
 ")).
-Eval vm_compute in ("<<<M870>>>" ++ check (runes_of_ascii "packet A {
-  match k as n {
-    [""a"", 22, ""c c"", 4, ""e"", 66, ""g"", 8, ""i""] : B
-    2 : C
-  },
+Eval vm_compute in ("<<<M494>>>" ++ check (runes_of_ascii "packet
+    asx { @calculatedFrom(
+""""  ) @tag( 255 )repeat
+// packet A { u8 x, }
+// trailing space 
+int16 u8x
+,
+@tag(
+    //
+    007 )
+    @tag( 0
+    /// triple
+    ) @tag( 1 string u
+    @lengthOf( T ),
+// `tick` ""quote"" 'q'
+//x
+} // " ++ [128512]%N ++ runes_of_ascii " emoji")).
+Eval vm_compute in ("<<<M522>>>" ++ check (runes_of_ascii "packet
+    asx { @calculatedFrom(
+""""  ) @tag( 255 )repeat
+// packet A { u8 x, }
+// trailing space 
+int16 u8x
+,
+@tag(
+    //
+    007 )
+    @tag( 0
+    /// triple
+    ) @tag( 1) u
+    @lengthOf( T ),
+// `tick` ""quote"" 'q'
+//x
+} } // " ++ [128512]%N ++ runes_of_ascii " emoji")).
+Eval vm_compute in ("<<<M453>>>" ++ check (runes_of_ascii "packet
+    asx { @calculatedFrom(
+""""  ) @tag( 255 )repeat
+// packet A { u8 x, }
+// trailing space 
+int16 u8x
+,
+007
+    //
+    @tag( )
+    @tag( 0
+    /// triple
+    ) @tag( 1) u
+    @lengthOf( T ),
+// `tick` ""quote"" 'q'
+//x
+} // " ++ [128512]%N ++ runes_of_ascii " emoji")).
+Eval vm_compute in ("<<<M491>>>" ++ check (runes_of_ascii "packet
+    asx { @calculatedFrom(
+""""  ) @tag( 255 )repeat
+// packet A { u8 x, }
+// trailing space 
+int16 u8x
+,
+@tag(
+    //
+    007 )
+    @tag( 0
+    /// triple
+    ) @tag( 1 u
+    @lengthOf( T ),
+// `tick` ""quote"" 'q'
+//x
+} // " ++ [128512]%N ++ runes_of_ascii " emoji")).
+Eval vm_compute in ("<<<M529>>>" ++ check (runes_of_ascii "packet
+    asx { @calculatedFrom(
+""""  ) @tag( 255 )repeat
+// packet A { u8 x, }
+// trailing space 
+int16 u8x
+,
+@tag(
+    //
+    007 )
+    @tag( 0
+    /// triple
+    ) @tag( 1) u
+    @lengthOf( T ),
+// `tick` ""quote"" 'q'
+//x
 }")).
-Eval vm_compute in ("<<<M1448>>>" ++ check (runes_of_ascii "packet A {
+Eval vm_compute in ("<<<M325>>>" ++ check (runes_of_ascii "MetaData lengthOf {chars asx
+,
+T
+// trailing space 
+// @lengthOf(
+Header
+`100% of %d`	,
+int32 x_y_z `two words`
+, zchar[	0123456789 ] Header
+    ``,len x_y_z`
+` , // c
+}// " ++ [27880; 37322]%N ++ runes_of_ascii "
+packet//
+BodyLength
+    { }
+")).
+Eval vm_compute in ("<<<M1334>>>" ++ check (runes_of_ascii "root packet Frame {
+    u8 K,
+    Logon first,
+    match K as Body {
+        1 : Logon,
+        2 : Logout,
+    },
+}
+packet Logon {
+    string user,
+}
+packet Logout {
+    u16 reason,
+}
+")).
+Eval vm_compute in ("<<<M548>>>" ++ check (runes_of_ascii "MetaData MetaData u
+    { } MetaData o
+{ float uint8x
+`100% of %d` ,repeatCount u8x, string_ leftPad
+, i32
+    Foo , int64 x `two words` , calculatedFrom
+stringy `a\` ,
+}
+")).
+Eval vm_compute in ("<<<M147>>>" ++ check (runes_of_ascii "packet
+Pad { /// triple
+trueish {  uint16	Packet @lengthOf(i8i8 ) `" ++ [28040; 24687; 31867; 22411]%N ++ runes_of_ascii "`
+,Logon
+    , repeat// `tick` ""quote"" 'q'
+zchar[ 255  ]
+f32a	`say ""hi""` ,	}
+,
+    //	t
+    }
+")).
+Eval vm_compute in ("<<<M613>>>" ++ check (runes_of_ascii "MetaData u
+    { } MetaData o
+{ float uint8x
+`100% of %d` ,repeatCount u8x string_ , leftPad
+, i32
+    Foo , int64 x `two words` , calculatedFrom
+stringy `a\` ,
+}
+")).
+Eval vm_compute in ("<<<M638>>>" ++ check (runes_of_ascii "MetaData u
+    { } MetaData o
+{ float uint8x
+`100% of %d` ,repeatCount u8x, string_ leftPad
+, i32
+    , Foo int64 x `two words` , calculatedFrom
+stringy `a\` ,
+}
+")).
+Eval vm_compute in ("<<<M358>>>" ++ check (runes_of_ascii "  packet
+// 50% %s
+// @lengthOf(
+len{ @rightPad ( ' '
+)uint8x asx `// not a comment` , @calculatedFrom( ""// no comment""
+) // @lengthOf(
+repeat f64 uint8x`a\` , }")).
+Eval vm_compute in ("<<<M1975>>>" ++ check (runes_of_ascii "packet A {
     Inner {
         match k as n {
-            [1, 22] : B,
+            [
+                1, 22, 007, 4, 5,
+                66, 7, 8
+            ] : B,
         },
     },
 }")).
-Eval vm_compute in ("<<<M1622>>>" ++ check (runes_of_ascii "packet A {
+Eval vm_compute in ("<<<M1496>>>" ++ check (runes_of_ascii "packet A {
     match k as n {
-        [""a"", 22, ""c c"", 4] : B,
+        [
+            ""a"", ""bb"", ""c c"", ""d"", ""e"",
+            ""f"", ""g"", ""h"", ""i""
+        ] : B,
         2 : C,
     },
 }")).
-Eval vm_compute in ("<<<M830>>>" ++ check (runes_of_ascii "packet A {
-  match k as n {
-    [""a"", 22, ""c c"", 4, ""e"", 66] : B,
-    2 : C
-  },
-}")).
-Eval vm_compute in ("<<<M833>>>" ++ check (runes_of_ascii "packet A {
-  match k as n {
-    [1, 22, ""c c"", 4, 5, ""f""] : B
-    2 : C
-  },
-}")).
-Eval vm_compute in ("<<<M1696>>>" ++ check (runes_of_ascii "packet  A {Inner
+Eval vm_compute in ("<<<M1625>>>" ++ check (runes_of_ascii "options  {} options 
+{ MetaDataX
+=
 
-    { 
-u8 
-x `
-x`
-    ,
-Deep 
-{u8
-	y`
-x`
-,} ,	}  ,} ")).
-Eval vm_compute in ("<<<M79>>>" ++ check (runes_of_ascii "root  packet Packet {
-match
-    f32a	as Foo// " ++ [27880; 37322]%N ++ runes_of_ascii "
+    char
+	; }
+MetaData
+	Pad
+	{
+
+// c
+i8
+metadata
+
+    , string
+stringy
+,
+
+int8	As
+`{ , }`,
+	}
+")).
+Eval vm_compute in ("<<<M1307>>>" ++ check (runes_of_ascii "packet A {
+    u8 a,
+}
+packet B {
+    u16 b,
+}
+root packet P {
+    u8 K,
+    match K as M {
+        1 : A,
+        1 : B,
+    },
+}
+")).
+Eval vm_compute in ("<<<M1577>>>" ++ check (runes_of_ascii "MetaData metadata {
+    u64 charz `crlf
+    line`,
+    int64 options1,
+}
+
+options {
+    tag = ""CRC32"";
+    u8x = '\x00'
+}")).
+Eval vm_compute in ("<<<M1612>>>" ++ check (runes_of_ascii "options {
+    LittleEndian = true;
+}
+
+root packet P {
+    u16 a,
+    u32 Sum @calculatedFrom(""CR\
+        C32""),
+}")).
+Eval vm_compute in ("<<<M1231>>>" ++ check (runes_of_ascii "options { } options { MetaDataX = char ; } MetaData Pad { i8 metadata // c
+, string stringy , int8 As `{ , }` , }")).
+Eval vm_compute in ("<<<M1654>>>" ++ check (runes_of_ascii "
+packet
+	A
+{ match
+	k
+as
+n 
+{ [
+	""a""  ,""bb"" ,
+
+007,
+
+""d"" , ""e"",	66
+
+,
+	""g""
+
+    ,""h""  ]
+	:	B 2
+:C	} ,	}
+
+")).
+Eval vm_compute in ("<<<M273>>>" ++ check (runes_of_ascii "MetaData
+float {
+repeatCount zchar,
+charz
+a1 , i64_
+    /// triple
+    string_	, float64 trueish,	}
+")).
+Eval vm_compute in ("<<<M1179>>>" ++ check (runes_of_ascii "// top
+options
+    // c0
 {
-1 :
-    tag ,	} ,
+    // c1
+A
+    // c2
+=
+    // c3
+""// no comment""
+    // c4
+}
+    // c5
+")).
+Eval vm_compute in ("<<<M635>>>" ++ check (runes_of_ascii "MetaData u
+    { } MetaData o
+{ float uint8x
+`100% of %d` ,repeatCount u8x, string_ leftPad
+,")).
+Eval vm_compute in ("<<<M1974>>>" ++ check (runes_of_ascii "packet options1 {
+    repeat char[] A `" ++ [233]%N ++ runes_of_ascii "`,
+    float rootA,
+    Foo,
+}
+
+root packet Z9_ {
+}")).
+Eval vm_compute in ("<<<M827>>>" ++ check (runes_of_ascii "packet A {
+  match k as n {
+    [""a"", ""bb"", ""c c"", ""d"", ""e"", ""f""] : B
+    2 : C
+  },
+}")).
+Eval vm_compute in ("<<<M1608>>>" ++ check (runes_of_ascii "packet  Inner 
+{ 
+u8  a
+    ,	} root
+packet
+    P 
+{Inner
+    ref_obj
+, u8 
+x ,
+}
+")).
+Eval vm_compute in ("<<<M988>>>" ++ check (runes_of_ascii "packet A {
+    u32 crc @calculatedFrom(""\
+""),
+    @calculatedFrom(""\
+"") u8 y,
+}")).
+Eval vm_compute in ("<<<M369>>>" ++ check (runes_of_ascii "packet
+_x { }
+    root
+    packet leftPad { }
+options { Pad
+=	string ; }
+")).
+Eval vm_compute in ("<<<M967>>>" ++ check (runes_of_ascii "MetaData M {
+    u8 x `100% of %s %d %v`,
+    T t `100% of %s %d %v`,
 }")).
 Eval vm_compute in ("<<<M922>>>" ++ check (runes_of_ascii "packet A {
     B b `a
@@ -1195,65 +1280,51 @@ b`,
     repeat B bs `a
 b`,
 }")).
-Eval vm_compute in ("<<<M937>>>" ++ check (runes_of_ascii "MetaData M {
-    u8 x `a
-    b
-  c`,
-    T t `a
-    b
-  c`,
-}")).
+Eval vm_compute in ("<<<M823>>>" ++ check (runes_of_ascii "packet A { Inner { match k as n { [1,22,007,4,5] : B, }, }, }")).
 Eval vm_compute in ("<<<M970>>>" ++ check (runes_of_ascii "packet A {
     B b `%`,
     B `%`,
     repeat B bs `%`,
 }")).
-Eval vm_compute in ("<<<M1552>>>" ++ check (runes_of_ascii "
+Eval vm_compute in ("<<<M775>>>" ++ check (runes_of_ascii "packet A { Inner { match k as n { [1] : B, }, }, }")).
+Eval vm_compute in ("<<<M1162>>>" ++ check (runes_of_ascii "// top
+packet // c0
+x // c1
+{ // c2
+} // c3
+")).
+Eval vm_compute in ("<<<M1657>>>" ++ check (runes_of_ascii "  packet  len
+{ repeat
 
-  // c
-	options
+    A
+    ,}
+")).
+Eval vm_compute in ("<<<M1181>>>" ++ check (runes_of_ascii "// c
+options { A = ""// no comment"" }")).
+Eval vm_compute in ("<<<M944>>>" ++ check (runes_of_ascii "root packet A {
+    u8 x `a
 
-{
-    A	=  ""// no comment""  }
-
-")).
-Eval vm_compute in ("<<<M41>>>" ++ check (runes_of_ascii "root
-packet
-msg_type
-    // 50% %s
-    {  }
-")).
-Eval vm_compute in ("<<<M1961>>>" ++ check (runes_of_ascii "  packet A	{	u8
-    x
-`d" ++ [65279]%N ++ runes_of_ascii "`, 	 // c" ++ [65279]%N ++ runes_of_ascii "
-  }
-")).
-Eval vm_compute in ("<<<M357>>>" ++ check (runes_of_ascii "MetaData rootA
-{ options1 a1
-, }
-
-")).
-Eval vm_compute in ("<<<M713>>>" ++ check (runes_of_ascii "packet
-crc
-{repeat  Foo A  `u8 x,`")).
-Eval vm_compute in ("<<<M1609>>>" ++ check (runes_of_ascii "options  {} // trailing space 
-")).
-Eval vm_compute in ("<<<M759>>>" ++ check ([15]%N ++ runes_of_ascii "2	k" ++ [65533]%N ++ runes_of_ascii "p" ++ [65533; 65533]%N ++ runes_of_ascii "6" ++ [65533]%N ++ runes_of_ascii "f" ++ [65533]%N ++ runes_of_ascii "@""y" ++ [65533; 25; 65533; 65533]%N ++ runes_of_ascii "?" ++ [65533; 65533; 65533]%N ++ runes_of_ascii "Y" ++ [65533; 65533]%N ++ runes_of_ascii "#" ++ [65533]%N)).
-Eval vm_compute in ("<<<M331>>>" ++ check (runes_of_ascii "
- // `tick` ""quote"" 'q'")).
-Eval vm_compute in ("<<<M1964>>>" ++ check (runes_of_ascii "// c" ++ [8192]%N ++ runes_of_ascii "
-  packet 
-A{ }
-")).
-Eval vm_compute in ("<<<M1005>>>" ++ check (runes_of_ascii "packet A {
-}
-// c" ++ [160]%N)).
-Eval vm_compute in ("<<<M1166>>>" ++ check (runes_of_ascii "
-// c
-packet x { }")).
-Eval vm_compute in ("<<<M1967>>>" ++ check (runes_of_ascii "packet Packet {
+b`,
 }")).
-Eval vm_compute in ("<<<M1420>>>" ++ check (runes_of_ascii "// a
-// b")).
-Eval vm_compute in ("<<<M17>>>" ++ check (runes_of_ascii "
+Eval vm_compute in ("<<<M739>>>" ++ check ([65533; 8; 65533; 65533]%N ++ runes_of_ascii "_" ++ [18]%N ++ runes_of_ascii "%" ++ [65533]%N ++ runes_of_ascii "." ++ [65533; 65533; 65533; 6]%N ++ runes_of_ascii "AR" ++ [31; 65533]%N ++ runes_of_ascii "rNi" ++ [1450; 22]%N ++ runes_of_ascii "tL9" ++ [0; 65533]%N ++ runes_of_ascii "A" ++ [65533]%N ++ runes_of_ascii "/")).
+Eval vm_compute in ("<<<M1096>>>" ++ check (runes_of_ascii "MetaData M {
+}// c
+options {}")).
+Eval vm_compute in ("<<<M1824>>>" ++ check (runes_of_ascii "// c" ++ [160]%N ++ runes_of_ascii "
+	packet
+	A 
+{  }
+")).
+Eval vm_compute in ("<<<M1123>>>" ++ check (runes_of_ascii "
+// c
+MetaData tag { }")).
+Eval vm_compute in ("<<<M1001>>>" ++ check (runes_of_ascii "// c" ++ [12288]%N ++ runes_of_ascii "
+packet A {
+}")).
+Eval vm_compute in ("<<<M1102>>>" ++ check (runes_of_ascii "packet A { // a
+ }")).
+Eval vm_compute in ("<<<M1851>>>" ++ check (runes_of_ascii "packet Packet {
+}")).
+Eval vm_compute in ("<<<M1690>>>" ++ check (runes_of_ascii "/// triple")).
+Eval vm_compute in ("<<<M159>>>" ++ check (runes_of_ascii "  
 ")).
